@@ -207,6 +207,25 @@ def run(ctx):
                 if status != 404:
                     ctx.violation({"app": appname, "iface": iface, "raw_path_info": raw}, 404, {"status": status, "body": r.body[:40].decode("latin-1")},
                                   "a path that is not UTF-8 was resolved to a file (read as Latin-1 text)")
+        # WSGI: a regular file whose NAME is not UTF-8 (bytes of another charset) is served at its own path, whatever its media type
+        for fname in (b"G\xff", b"T\xff.txt"):
+            with open(os.path.join(os.fsencode(root), fname), "wb") as f:
+                f.write(b"CONTENT OF " + fname)
+        for (appname, iface), app in apps.items():
+            if iface != "wsgi":
+                continue
+            for fname in (b"G\xff", b"T\xff.txt"):
+                env = servers.make_environ(servers.Req(path="/", headers=[("Host", "testserver")]))
+                env["PATH_INFO"] = "/" + fname.decode("latin-1")
+                r = servers.wsgi_call(app, env)
+                ctx.count()
+                from baize.exceptions import HTTPException
+                status = r.exc.status_code if isinstance(r.exc, HTTPException) else (r.status if r.exc is None else "exc:" + type(r.exc).__name__)
+                if status != 200 or r.body != b"CONTENT OF " + fname:
+                    ctx.violation({"app": appname, "iface": iface, "file_name_bytes": repr(fname)}, {"status": 200, "body": "the file"},
+                                  {"status": status, "body": r.body[:40].decode("latin-1")},
+                                  "a regular file with a name that is not UTF-8 is not served at its own path")
+                ctx.nontriv(("non-utf8-name", appname, fname))
         # the empty PATH_INFO (distinct from "/"): Files not found, Pages redirect to "/"
         for (appname, iface), app in apps.items():
             o = request(app, iface, "")
